@@ -1,6 +1,6 @@
 (** C11 — SPF evaluation is bounded, ends in an RFC 7208 result and cannot inject header text.
     Only statements here; proofs live in Proofs/Spf*.v.  The model (Model/Spf.v) is the code of
-    qsmtpd/spf.c after the fixes in fixes/C11-*.diff; resolver and macro expander are parameters. *)
+    qsmtpd/spf.c after the fixes in fixes/C11-*.diff (incl. C11-14: ptr names compared case-insensitively); resolver and macro expander are parameters. *)
 From Qv Require Import Common.Bytes Gen.GenSpf Model.SpfBase Model.SpfEnv Model.SpfMacro Model.Spf Model.SpfZone Spec.SpfSpec
   Spec.SpfRfc Proofs.SpfSanitise Proofs.SpfCore Proofs.SpfHeader Proofs.SpfTheorems Proofs.SpfRfcWitness Proofs.SpfAgree Proofs.SpfRfcStrict.
 
@@ -109,8 +109,7 @@ Print Assumptions C11_rfc_deviation_witnesses.
     record outside the strict macro-free grammar of Spec/SpfRfc.v, no resolver error RFC 7208 has no
     result for (local / permanent errors; temporary ones are in), no invalid initial domain, and none
     of the known deviations F-C11-2 (ip4/ip6 length < 8), F-C11-10 (10 or more MX hosts), F-C11-11
-    (redirect to a domain without record), F-C11-12 (DNS error of the PTR lookup), F-C11-13 ("ip6:::"),
-    nor a PTR name that matches only case-insensitively — then check_host() of the model (the one
+    (redirect to a domain without record), F-C11-12 (DNS error of the PTR lookup), F-C11-13 ("ip6:::") — then check_host() of the model (the one
     tied to qsmtpd/spf.c, with the macro expander of Model/SpfMacro.v) returns exactly the result of
     the RFC 7208 evaluator: pass / fail / softfail / neutral as the first matching mechanism dictates
     (all, ip4, ip6, a, mx, ptr, exists, include with its result mapping, redirect), none without a
